@@ -32,12 +32,16 @@ from ..explorer import Step
 
 PROPERTY = "C01"
 ALPHABET = "profiles P1..P5 (see module docstring and PROFILES); deliveries: next frame, first 1 / 9 bytes of next frame, flush"
-BOUNDS = {"quick": "each profile to depth 4, <=1 deviation, two start states", "thorough": "depth 6, <=2 deviations (or time budget, reported)"}
+QUICK_DEPTH = {"P4": 4, "P5": 4, "P1": 5, "P2": 5, "P3": 6, "P6": 6, "P7": 6}
+BOUNDS = {"quick": "profiles to depth %s, <=1 deviation (a raising call, or one window of non-lock-step delivery), two start states" % (sorted(QUICK_DEPTH.items()),), "thorough": "depth 7, <=2 deviations (or time budget, reported)"}
 C, S = P.C, P.S
 REQ = H.REQ_POST + [(b"X-Mixed", b" padded "), (b"accept", b"*/*")]
 RESP = H.RESP + [(b"Server", b"h2mc"), (b"x-a", b"1")]
 INFO = [(b":status", b"103"), (b"link", b"</style.css>")]
 TRL = [(b"x-checksum", b"abc")]
+HEAD = [(b":method", b"HEAD"), (b":scheme", b"https"), (b":path", b"/h"), (b":authority", b"example.com")]
+RESPCL = H.RESP + [(b"content-length", b"5"), (b"x-a", b"1")]
+RESP304 = [(b":status", b"304"), (b"etag", b"xyz")]
 N = P.norm
 
 
@@ -90,6 +94,20 @@ def calls():
     add("s:altsvc", S, "advertise_alternative_service", (b'h2=":443"',), {"origin": b"example.com"}, [("altsvc", b"example.com", b'h2=":443"')])
     add("s:altsvc1", S, "advertise_alternative_service", (b'h2=":443"',), {"stream_id": 1}, [("altsvc", b"example.com", b'h2=":443"')])
     add("s:resp3-idle", S, "send_headers", (3, RESP), {}, [hdr(3, "response", RESP, False)])
+    # P3 extras: a second parent, a second promise (same request list: its block refers to table entries of the first)
+    add("s:push3", S, "push_stream", (3, 4, H.REQ), {}, [("push", 3, 4, N(H.REQ))])
+    add("s:resp4es", S, "send_headers", (4, RESP), {"end_stream": True}, [hdr(4, "response", RESP, True)])
+    # P6: HEAD requests (with and without request trailers) answered with a content-length and no body
+    add("c:head1", C, "send_headers", (1, HEAD), {}, [hdr(1, "request", HEAD, False)])
+    add("c:head1es", C, "send_headers", (1, HEAD), {"end_stream": True}, [hdr(1, "request", HEAD, True)])
+    add("s:resp1cl", S, "send_headers", (1, RESPCL), {}, [hdr(1, "response", RESPCL, False)])
+    add("s:resp1cl-es", S, "send_headers", (1, RESPCL), {"end_stream": True}, [hdr(1, "response", RESPCL, True)])
+    add("s:resp1-304es", S, "send_headers", (1, RESP304), {"end_stream": True}, [hdr(1, "response", RESP304, True)])
+    # P7: a promised stream across INITIAL_WINDOW_SIZE / MAX_FRAME_SIZE changes of the client
+    add("s:resp2", S, "send_headers", (2, RESP), {}, [hdr(2, "response", RESP, False)])
+    add("s:data2es", S, "send_data", (2, b"pushed"), {"end_stream": True}, [("data", 2, b"pushed", True)])
+    add("c:set-iws-6", C, "update_settings", ({4: 6},), {}, [("settings", ((4, 6),))])
+    add("c:incr2", C, "increment_flow_control_window", (10,), {"stream_id": 2}, [])
     return T
 
 
@@ -98,11 +116,15 @@ PROFILES = {
            "s:data1", "s:data1es", "s:end1", "s:trailers1", "c:data5", "c:trailers1-noes", "s:trailers1-noes", "s:resp3-idle"],
     "P2": ["c:req1", "c:req3", "c:req3es", "s:resp1", "s:resp3es", "c:data1", "s:data1", "c:rst1", "s:rst1", "c:rst3", "s:rst3",
            "c:incr1", "s:incr1", "c:end1", "s:data1es"],
-    "P3": ["c:req1", "c:req1es", "s:push1", "s:resp2es", "s:data2", "s:resp1es", "c:rst1", "c:rst2", "s:rst1", "c:set-push0", "s:resp1"],
+    "P3": ["c:req1", "c:req1es", "s:push1", "s:resp2es", "s:data2", "s:resp1es", "c:rst1", "c:rst2", "s:rst1", "c:set-push0", "s:resp1",
+           "c:req3", "s:push3", "s:resp3es", "s:resp4es"],
     "P4": ["c:req1", "s:resp1", "c:data1", "s:data1", "c:set-iws-down", "s:set-iws-down", "c:set-iws-up", "s:set-mfs", "c:set-hts0",
            "s:set-hts0", "c:set-mcs1", "s:set-mcs1", "c:set-unknown", "c:set-push0", "c:req3es", "s:resp3es"],
     "P5": ["c:req1", "s:resp1", "c:ping", "s:ping", "c:prio1", "c:req5prio", "s:altsvc", "s:altsvc1", "c:incr", "s:incr", "c:ack1",
            "s:ack1", "s:data1", "c:close", "s:close"],
+    "P6": ["c:head1", "c:head1es", "c:trailers1", "c:end1", "s:info1", "s:resp1cl", "s:resp1cl-es", "s:resp1-304es", "s:end1", "s:trailers1"],
+    "P7": ["c:req1", "s:push1", "s:resp2", "s:data2", "s:data2es", "c:set-iws-down", "c:set-iws-6", "c:set-iws-up", "c:incr2", "s:set-mfs",
+           "s:resp1es"],
 }
 
 
@@ -112,7 +134,7 @@ class Spec:
         self.profile = profile
         self.tier = tier
         self.name = "c01-%s-%s" % (profile, tier)
-        self.max_depth = 4 if tier == "quick" else 6
+        self.max_depth = QUICK_DEPTH.get(profile, 5) if tier == "quick" else 7
         self.dev = 1 if tier == "quick" else 2
         self.T = calls()
         self.menu = PROFILES[profile]
@@ -122,28 +144,30 @@ class Spec:
         for nm, hs in (("handshaken", True), ("handshake-in-flight", False)):
             st = P.PairState(handshake=hs)
             st.budget = self.dev
+            st.window = not hs
             out.append((nm, st))
         return out
 
     def fingerprint(self, st):
         return fingerprint(st.conn[0], st.conn[1], bytes(st.pipe[0]), bytes(st.pipe[1]), st.ledger, [sorted(g) for g in st.gone],
-                           st.closed, st.broken, st.budget, st.raised, [sorted((k, sorted(v)) for k, v in e.items()) for e in st.es])
+                           st.closed, st.broken, st.budget, getattr(st, 'window', False), st.raised, st.sset, st.acks, st.overlap, [sorted((k, sorted(v)) for k, v in e.items()) for e in st.es])
 
     def actions(self, st):
         if st.broken:
             return []
         acts = []
         inflight = bool(st.pipe[C] or st.pipe[S])
+        window = getattr(st, "window", False) and inflight
         for lab in self.menu:
             x = self.T[lab][0]
             if st.closed[x]:
                 continue
-            acts.append(lab)
-            if st.budget > 0:
-                acts.append(lab + "~hold")
+            acts.append(lab)                    # lock-step outside a window; left in flight inside one
+            if not window and st.budget > 0:
+                acts.append(lab + "~hold")      # opens a window: one departure from the lock-step schedule
         if inflight:
-            acts.append("flush")
-            if st.budget > 0:
+            acts.append("flush")                # closes the window
+            if window or st.budget > 0:
                 for d in ("cs", "sc"):
                     if st.pipe[C if d == "cs" else S]:
                         acts += ["dl:%s:frame" % d, "dl:%s:split1" % d, "dl:%s:split9" % d]
@@ -157,7 +181,10 @@ class Spec:
             s.update(sig)
             viols.append({"kind": kind, "sig": s, "msg": msg})
 
+        inflight = bool(st.pipe[C] or st.pipe[S])
+        window = getattr(st, "window", False) and inflight
         if lab == "flush":
+            st.window = False
             st.pump(bad, lab)
             st.quiescent_check(bad, lab)
             if viols:
@@ -166,7 +193,9 @@ class Spec:
         if lab.startswith("dl:"):
             _, d, how = lab.split(":")
             frm = C if d == "cs" else S
-            st.budget -= 1
+            if not window:
+                st.budget -= 1
+                st.window = True
             buf = st.pipe[frm]
             # frame boundaries of what is in flight
             n = len(buf)
@@ -184,12 +213,17 @@ class Spec:
             st.quiescent_check(bad, lab)
             if viols:
                 st.broken = True
+            if not (st.pipe[C] or st.pipe[S]):
+                st.window = False
             return Step("deliver-" + how, viols)
         hold = lab.endswith("~hold")
         base = lab[:-5] if hold else lab
         x, method, args, kw, items = self.T[base]
         if hold:
             st.budget -= 1
+            st.window = True
+        elif window:
+            hold = True           # inside a window nothing is pumped until "flush"
         o = H.call(st.conn[x], method, *args, **kw)
         if o.kind == "raise":
             if o.raw:
@@ -197,9 +231,9 @@ class Spec:
                 st.pipe[x] += o.raw
             if not o.is_h2:
                 bad("non-h2-exception", "%s raised %s" % (base, o.exc_name), call=method, exc=o.exc_name)
-            if st.budget <= 0 and not hold:
+            if st.budget <= 0 and not lab.endswith("~hold"):
                 return Step("call-raised-no-budget", viols, prune=not viols)
-            if not hold:
+            if not lab.endswith("~hold"):
                 st.budget -= 1
             st.raised.append(method)
             out = "call-raised"
@@ -209,6 +243,8 @@ class Spec:
             if method == "close_connection":
                 its = [("goaway", 0, st.conn[x].highest_inbound_stream_id, b"done")]
                 st.closed[x] = True
+            if method == "update_settings":
+                st.sset[x] += 1
             if method == "reset_stream":
                 st.gone[x].add(args[0])
             if kw.get("end_stream") or method == "end_stream":
@@ -224,6 +260,8 @@ class Spec:
             st.quiescent_check(bad, base)
         if viols:
             st.broken = True
+        if not (st.pipe[C] or st.pipe[S]):
+            st.window = False
         return Step(out + ("-held" if hold else ""), viols)
 
 
